@@ -569,14 +569,23 @@ theorem fold_actLines_else (bs : List β) (st : PState α β) :
     rw [hstep, fold_else_lines t _ rfl]
     simp [List.append_assoc]
 
-/-- the lines of a printed rule are sorted back into the three blocks and the priority -/
-theorem fold_printRule (r : Rule α β) (hp : 0 ≤ r.priority) :
-    ((printRule r).foldl stepR PState.init).ifs = flatten r.cond .if_ ∧
-    ((printRule r).foldl stepR PState.init).thens = r.thens ∧
-    ((printRule r).foldl stepR PState.init).elses = r.elses ∧
-    ((printRule r).foldl stepR PState.init).priority = r.priority := by
-  obtain ⟨a, rest, hfl⟩ := flatten_head r.cond .if_
-  simp only [printRule, List.foldl_append, hfl, List.map_cons, List.foldl_cons]
+theorem clauses_head (c : Cond α) : ∃ a rest, flattenCnf c = (Conj.if_, a) :: rest := by
+  have h := Wntr.InpNorm.cnf_ne_nil c
+  unfold flattenCnf
+  obtain ⟨g, gs, hg⟩ := List.exists_cons_of_ne_nil h.1
+  have hgne : g ≠ [] := h.2 g (by simp [hg])
+  obtain ⟨a, t, ht⟩ := List.exists_cons_of_ne_nil hgne
+  exact ⟨a, _, by simp [hg, ht, clausesOfGroups, groupClauses]; rfl⟩
+
+/-- the lines of a printed rule (premises `cls`, starting with IF) are sorted back into the three blocks and the priority -/
+theorem fold_printRuleWith (r : Rule α β) (hp : 0 ≤ r.priority) (cls : List (Conj × α)) (a : α) (rest : List (Conj × α))
+    (hcls : cls = (Conj.if_, a) :: rest) :
+    ((printRuleWith cls r).foldl stepR PState.init).ifs = cls ∧
+    ((printRuleWith cls r).foldl stepR PState.init).thens = r.thens ∧
+    ((printRuleWith cls r).foldl stepR PState.init).elses = r.elses ∧
+    ((printRuleWith cls r).foldl stepR PState.init).priority = r.priority := by
+  subst hcls
+  simp only [printRuleWith, List.foldl_append, List.map_cons, List.foldl_cons]
   have h1 : stepR (PState.init (α := α) (β := β)) (Conj.if_.kw, Payload.atom a) = ⟨.inIf, [(.if_, a)], [], [], 0⟩ := by
     simp [stepR, Conj.kw, PState.init]
   rw [h1, fold_cond_lines rest _ rfl, fold_actLines_then, fold_actLines_else]
@@ -584,22 +593,38 @@ theorem fold_printRule (r : Rule α β) (hp : 0 ≤ r.priority) :
   simp only [hp', if_true, List.foldl_cons, List.foldl_nil]
   by_cases ht : r.thens = [] <;> by_cases he : r.elses = [] <;> simp [ht, he, stepR]
 
-/-- **`rule_text_roundtrip`**: a rule whose condition is a left-nested AND of left-nested ORs, with any number of THEN and
-ELSE actions and a non-negative priority, is re-created exactly from its lines -/
-theorem rule_text_roundtrip (r : Rule α β) (hc : isShape r.cond = true) (hp : 0 ≤ r.priority) :
-    parseRule (printRule r) = some r := by
-  obtain ⟨h1, h2, h3, h4⟩ := fold_printRule r hp
-  simp only [parseRule, h1, h2, h3, h4, rule_condition_roundtrip r.cond hc]
+/-- **`rule_text_roundtrip`** (writer as repaired by e0050eda): EVERY rule — any condition tree, any number of THEN and ELSE
+actions, a non-negative priority — is re-created from its lines with its condition in normal form (the AND of its
+OR-groups: same groups, same truth value under every valuation — `rule_condition_same_groups/_same_meaning`) -/
+theorem rule_text_roundtrip [Inhabited α] (r : Rule α β) (hp : 0 ≤ r.priority) :
+    parseRule (printRule r) = some { r with cond := ofGroups (cnf r.cond) } := by
+  obtain ⟨a, rest, hcls⟩ := clauses_head r.cond
+  obtain ⟨h1, h2, h3, h4⟩ := fold_printRuleWith r hp _ a rest hcls
+  simp only [parseRule, printRule, h1, h2, h3, h4, rule_condition_roundtrip_all r.cond]
 
-/-- the full statement over all condition trees … -/
-def RuleTextRoundtripFull : Prop := ∀ r : Rule Nat Nat, 0 ≤ r.priority → parseRule (printRule r) = some r
+/-- exact round trip for conditions that already are an AND of ORs -/
+theorem rule_text_roundtrip_exact [Inhabited α] (r : Rule α β) (hp : 0 ≤ r.priority)
+    (hc : ofGroups (cnf r.cond) = r.cond) : parseRule (printRule r) = some r := by
+  rw [rule_text_roundtrip r hp, hc]
 
-/-- … is false (mixed AND/OR: recorded finding `rules-condition-mixed-and-or-regrouped`) -/
-theorem rule_text_counterexample : ¬ RuleTextRoundtripFull := by
+/-- a second write of the re-created rule produces the same lines -/
+theorem rule_text_second_write [Inhabited α] (r : Rule α β) :
+    printRule { r with cond := ofGroups (cnf r.cond) } = printRule r := by
+  simp only [printRule, printRuleWith, rule_condition_text_stable]
+
+/-- **pinned** — the writer BEFORE e0050eda (premises in tree order): the full statement over all condition trees … -/
+def RuleTextRoundtripInOrder : Prop := ∀ r : Rule Nat Nat, 0 ≤ r.priority → parseRule (printRuleInOrder r) = some r
+
+/-- … was false (mixed AND/OR; fixed: rules-condition-mixed-and-or-regrouped) -/
+theorem rule_text_inorder_pinned : ¬ RuleTextRoundtripInOrder := by
   intro h
   have := h ⟨.or (.and (.atom 0) (.atom 1)) (.atom 2), [7], [], 3⟩ (by decide)
   revert this
   decide
+
+/-- the repaired writer on the same rule: read back as `(a OR c) AND (b OR c)` -/
+example : parseRule (printRule (⟨.or (.and (.atom 0) (.atom 1)) (.atom 2), [7], [], 3⟩ : Rule Nat Nat)) =
+    some ⟨.and (.or (.atom 0) (.atom 2)) (.or (.atom 1) (.atom 2)), [7], [], 3⟩ := by decide
 
 /-- a negative priority is not written (`__str__` prints PRIORITY only when ≥ 0) and comes back as 0 -/
 example : parseRule (printRule (⟨.atom 0, [7], [8, 9], -1⟩ : Rule Nat Nat)) = some ⟨.atom 0, [7], [8, 9], 0⟩ := by decide
@@ -628,30 +653,10 @@ theorem second_cycle_idempotent {α : Type} [Inhabited α] (m : Model α) : norm
   · apply List.map_congr_left; intro c _; simp [condNorm_idem]
   · exact normOpts_idem _ _
 
-/-- the text round trip of a rule lands in the normal form: what `generate_control` builds from the lines of the
-canonical tree is the canonical tree (so a second cycle writes the same lines) -/
+/-- the text round trip of a rule lands in the normal form, and the normal form is a fixed point of write → read -/
 theorem rule_normal_form_roundtrip {α : Type} [Inhabited α] (c : Cond α) :
-    parse (flatten (ofGroups (cnf c)) .if_) = some (ofGroups (cnf c)) := by
-  apply rule_condition_roundtrip
-  -- the canonical tree is a left-nested AND of left-nested ORs
-  have hor : ∀ (rest : List α) (t : Cond α), isDisj t = true → isDisj (rest.foldl (fun t x => Cond.or t (.atom x)) t) = true := by
-    intro rest
-    induction rest with
-    | nil => intro t h; simpa using h
-    | cons x xs ih => intro t h; exact ih _ (by simpa [isDisj] using h)
-  have hgt : ∀ g : List α, isDisj (groupTree g) = true := fun g => hor _ _ rfl
-  have hand : ∀ (gs : List (List α)) (t : Cond α), isShape t = true → isShape ((gs.map groupTree).foldl .and t) = true := by
-    intro gs
-    induction gs with
-    | nil => intro t h; simpa using h
-    | cons g rest ih => intro t h; exact ih _ (by simp [isShape, h, hgt g])
-  have hshape_of_disj : ∀ t : Cond α, isDisj t = true → isShape t = true := by
-    intro t h
-    cases t with
-    | atom _ => rfl
-    | or _ _ => simpa [isShape] using h
-    | and _ _ => simp [isDisj] at h
-  exact hand _ _ (hshape_of_disj _ (hgt _))
+    parse (flattenCnf (ofGroups (cnf c))) = some (ofGroups (cnf c)) := by
+  rw [rule_condition_roundtrip_all, rule_condition_same_groups]
 
 /-- non-vacuity: `(a AND b) OR c` is normalised to `(a OR c) AND (b OR c)`, whose lines re-parse to itself -/
 example : ofGroups (cnf (Cond.or (.and (.atom 0) (.atom 1)) (.atom 2))) = Cond.and (.or (.atom 0) (.atom 2)) (.or (.atom 1) (.atom 2)) := by decide
